@@ -306,6 +306,57 @@ impl Store {
   }
 }
 
+#[cfg(feature = "gohla_pie_verif")]
+impl Store {
+  /// Verification hook: read-only dump of the dependency store, one line per node (sorted by topological order) followed
+  /// by one line per edge in iteration order. Fields are tab-separated `Debug` renderings.
+  pub fn verif_dump(&self) -> Vec<String> {
+    let mut nodes: Vec<(u32, Node)> = self.graph.iter_unsorted().collect();
+    nodes.sort();
+    let mut lines = Vec::new();
+    lines.push(format!("maps\t{}\t{}\t{}", self.task_to_node.len(), self.resource_to_node.len(), nodes.len()));
+    let describe = |n: &Node| -> String {
+      match self.graph.get_node_data(n) {
+        Some(NodeData::Task { task, .. }) => format!("task\t{:?}", task),
+        Some(NodeData::Resource(resource)) => format!("resource\t{:?}", resource),
+        None => "missing\t?".to_string(),
+      }
+    };
+    for (order, node) in &nodes {
+      match self.graph.get_node_data(node) {
+        Some(NodeData::Task { task, output }) => {
+          let mapped = self.task_to_node.get(task.as_ref()).map(|n| n.0 == *node).unwrap_or(false);
+          lines.push(format!("T\t{}\t{:?}\t{:?}\t{}", order, task, output, mapped));
+        }
+        Some(NodeData::Resource(resource)) => {
+          let mapped = self.resource_to_node.get(resource.as_ref()).map(|n| n.0 == *node).unwrap_or(false);
+          lines.push(format!("R\t{}\t{:?}\t{}", order, resource, mapped));
+        }
+        None => lines.push(format!("?\t{}", order)),
+      }
+      for (dst, dependency) in self.graph.get_outgoing_edges(node) {
+        let d = match dependency {
+          Dependency::ReservedRequire => "Reserved\t-\t-".to_string(),
+          Dependency::Require(d) => format!("Require\t{:?}\t{:?}", d.checker(), d.stamp()),
+          Dependency::Read(d) => format!("Read\t{:?}\t{:?}", d.checker(), d.stamp()),
+          Dependency::Write(d) => format!("Write\t{:?}\t{:?}", d.checker(), d.stamp()),
+        };
+        lines.push(format!("O\t{}\t{}", describe(dst), d));
+      }
+      for (src, dependency) in self.graph.get_incoming_edges(node) {
+        let kind = match dependency {
+          Dependency::ReservedRequire => "Reserved",
+          Dependency::Require(_) => "Require",
+          Dependency::Read(_) => "Read",
+          Dependency::Write(_) => "Write",
+        };
+        lines.push(format!("I\t{}\t{}", describe(src), kind));
+      }
+    }
+    lines
+  }
+}
+
 
 #[cfg(test)]
 mod test {
